@@ -374,7 +374,7 @@ def run_query(q, wd, bcdir, tier, seed, known):
         return r
     r.funcs = [l.strip() for l in open(cfile + ".funcs") if l.strip()]
     r.nsym = count_symbolic(cfile)
-    incremental = q.backend in ("minisat", "cadical") and not q.paths
+    incremental = q.backend in ("minisat", "cadical")  # (also in path mode: every property, witness included, is reported in one run)
     runs = [(True, False)] if incremental else [(False, False), (True, False)]
     failed = []
     undecided = []
